@@ -64,6 +64,8 @@ struct ConnObs {
     /// instant the client observed the server closing the connection
     closed_ms: Option<u64>,
     first_byte_ms: Option<u64>,
+    /// how the client's connection future ended (diagnostics only)
+    close_reason: Option<String>,
 }
 
 pub struct ShutdownSim;
@@ -206,8 +208,12 @@ async fn h2_conn(net: Network, plan: ConnPlan, obs: Arc<Mutex<ConnObs>>, mode: O
     let obs2 = obs.clone();
     let net2 = net.clone();
     let driver = tokio::task::spawn_local(async move {
-        let _ = conn.await;
+        let r = conn.await;
         obs2.lock().closed_ms = Some(net2.now_ms());
+        obs2.lock().close_reason = Some(match r {
+            Ok(()) => "ok".into(),
+            Err(e) => format!("{:?}", e),
+        });
         closed2.notify_one();
     });
     let mut tasks = vec![];
@@ -452,6 +458,15 @@ impl Scenario for ShutdownSim {
             }
         }
         let Ok((t_s, server_result, obs, seen, spawned, finished, finished_in_time, end)) = result else { return out };
+        if std::env::var("VERIF_TRACE").is_ok() {
+            eprintln!("signal at {} ms, server {:?}, tasks {}/{} finished, end {} ms", t_s, server_result, finished, spawned, end);
+            for (i, o) in obs.iter().enumerate() {
+                eprintln!("conn {}: {:?}", i, o);
+            }
+            for s in &seen {
+                eprintln!("handler: {:?}", s);
+            }
+        }
         let slack = if case.io_faulty { 5000 } else { 1000 };
         let psig = json!({"proto": format!("{:?}", case.proto)});
         let mut viol = |rule: &str, detail: String| {
